@@ -33,10 +33,10 @@ Definition x_window : sub := xtx 1 (TxHeightFlag + 312).
 Definition x_height : sub := xtx 2 113.
 
 Lemma header_moves_verdicts :
-  (* refused at header 110 (next block 111), admitted one block later *)
+  (* refused at header 110 (next block 111), let in one block later *)
   hobs xsc (mkSt (xh 110) [] []) [OTx (STx x_window); OBlock (xblock 111); OTx (STx x_window)]
     = [(R_EXPIRED, []); (0%N, []); (R_OK, [1%N])]
-  (* admitted at header 111; the block at 112 sweeps it out and it is refused from then on;
+  (* let in at header 111; the block at 112 sweeps it out and it is refused from then on;
      a block that is not higher does not move the header *)
   /\ hobs xsc (mkSt (xh 111) [] []) [OTx (STx x_height); OBlock (xblock 100); OBlock (xblock 112); OTx (STx x_height)]
     = [(R_OK, [2%N]); (0%N, [2%N]); (0%N, []); (R_EXPIRED, [])]
